@@ -116,6 +116,27 @@ Theorem C11_negative_refuted_without_read_neg : forall E,
   rs E c false (write E c (VInt (-5))) = Ok (VOpaque 1).
 Proof. intro E. vm_compute. reflexivity. Qed.
 
+(* Reading the same text again.  Whatever a program did in place with the value a first reading returned
+   (here: an entry added to every dictionary inside it), a second .rs / .r of the same written text again
+   returns the value as kg_asarray normalises it.  The regenerated flags say that the call site keeps no
+   parse between calls: the body is exactly "parse x; build the dictionaries of THAT parse; return". *)
+Theorem C11_second_reading_rs : forall E, env_ok E -> forall v inl, writable E v = true ->
+  read_twice E gen_cfg_rs gen_rs_fresh_parse inl (write E gen_cfg_rs v) = Ok (asarray E v).
+Proof. exact (fun E HE => read_twice_written_cfg E HE gen_cfg_rs gen_rs_fresh_parse eq_refl eq_refl). Qed.
+Print Assumptions C11_second_reading_rs.
+
+Theorem C11_second_reading_r : forall E, env_ok E -> forall v inl, writable E v = true ->
+  read_twice E gen_cfg_r gen_r_fresh_parse inl (write E gen_cfg_r v) = Ok (asarray E v).
+Proof. exact (fun E HE => read_twice_written_cfg E HE gen_cfg_r gen_r_fresh_parse eq_refl eq_refl). Qed.
+Print Assumptions C11_second_reading_r.
+
+(* with a parse kept per text and dictionaries built in place inside it, the second reading of [7 :{[1 2]}]
+   returns the first result, entry added by the program included *)
+Theorem C11_second_reading_refuted_with_kept_parse : forall E,
+  read_twice E std_cfg false false (write E std_cfg (VList [VInt 7; VDict [(VInt 1, VInt 2)]]))
+    = Ok (VList [VInt 7; VDict [(VInt 1, VInt 2); (VSym [115; 101; 101; 110], VInt 1)]]).
+Proof. intro E. vm_compute. reflexivity. Qed.
+
 (* .r on a channel.  A file holding the written text of ANY number of writable values, separated by
    any non-empty white space (blanks, tabs, line breaks) and optionally followed by white space, read with
    .r() again and again on the same channel (read from the position, parse one object, advance by the
